@@ -69,7 +69,8 @@ def _cursor_fn(cls, name):
 # ---- T3: statement order of start()/stop()
 EV = {"show_cursor(False)": 1, "enable": 2, "push": 3, "started=True": 4, "refresh": 5, "line": 6,
       "visible": 7, "visible_unless_transient": 8, "restore_if_transient": 9,
-      "show_cursor(True)": 11, "disable": 12, "pop": 13, "started=False": 14,
+      "show_cursor(True)": 11, "disable": 12, "pop": 13, "started=False": 14, "shape=None": 15,
+      "save_overflow": 16, "restore_overflow": 17,
       "try": 20, "finally": 21, "except_all": 22, "end_try": 23, "reraise": 24,
       "guard_started": 30, "guard_not_started": 31}
 
@@ -130,6 +131,9 @@ def _events(stmts, fn):
             "self._started = True": "started=True", "self._started = False": "started=False",
             "self.refresh()": "refresh", "self.console.line()": "line",
             "self.vertical_overflow = 'visible'": "visible",
+            "self._live_render._shape = None": "shape=None",
+            "vertical_overflow = self.vertical_overflow": "save_overflow",
+            "self.vertical_overflow = vertical_overflow": "restore_overflow",
         }
         if text in table:
             out.append(EV[table[text]]); continue
@@ -157,6 +161,53 @@ def _guarded(events):
     if not need.issubset(h):
         return False
     return EV["finally"] in h or EV["reraise"] in h
+
+
+def _restores_overflow(events):
+    """is the overflow mode saved before the last refresh of stop() and put back in a finally after it?"""
+    if EV["save_overflow"] not in events or EV["restore_overflow"] not in events or EV["refresh"] not in events:
+        return False
+    i, j, k = events.index(EV["save_overflow"]), events.index(EV["refresh"]), events.index(EV["restore_overflow"])
+    return i < j < k and EV["finally"] in events[j:k] and EV["try"] in events[i:j]
+
+
+def _final_room(lr_cls):
+    """_LiveRender.__rich_console__: which height is a frame cropped to?  False: console.size.height;
+    True: one row less for the last frame of a transient display (not started any more)."""
+    fn = find_func(lr_cls.body, "__rich_console__")
+    withs = [s for s in fn.body if isinstance(s, ast.With)]
+    if len(withs) != 1 or _src(withs[0].items[0].context_expr) != "self._live._lock":
+        raise Untranslatable("_LiveRender.__rich_console__: no `with self._live._lock`")
+    body = withs[0].body
+    idx = [i for i, s in enumerate(body) if isinstance(s, ast.If) and _src(s.test).startswith("height > ")]
+    if len(idx) != 1:
+        raise Untranslatable("_LiveRender.__rich_console__: no single `if height > ...`")
+    node = body[idx[0]]
+    bound = _src(node.test)[len("height > "):]
+    if not (len(node.body) == 1 and isinstance(node.body[0], ast.If) and not node.orelse):
+        raise Untranslatable("_LiveRender.__rich_console__: overflow branches")
+    crop = node.body[0]
+    if _src(crop.test) != "self._live.vertical_overflow == 'crop'" or len(crop.orelse) != 1 or \
+            not isinstance(crop.orelse[0], ast.If) or _src(crop.orelse[0].test) != "self._live.vertical_overflow == 'ellipsis'" \
+            or crop.orelse[0].orelse:
+        raise Untranslatable("_LiveRender.__rich_console__: crop / ellipsis tests")
+    crop_src, ell_src = _src(crop.body[0]), _src(crop.orelse[0].body[0])
+    before = [_src(s) for s in body[:idx[0]]]
+    if bound == "console.size.height":
+        if crop_src != "lines = lines[:console.size.height]" or ell_src != "lines = lines[:console.size.height - 1]":
+            raise Untranslatable("_LiveRender.__rich_console__: slices (as-is shape)")
+        if any("max_height" in b for b in before):
+            raise Untranslatable("_LiveRender.__rich_console__: stray max_height")
+        return False
+    if bound == "max_height":
+        want = ["max_height = console.size.height",
+                "if self._live.transient and (not self._live._started):\n    max_height = max(max_height - 1, 0)"]
+        if before[-2:] != want:
+            raise Untranslatable("_LiveRender.__rich_console__: max_height is not computed as expected")
+        if crop_src != "lines = lines[:max_height]" or ell_src != "lines = lines[:max(max_height - 1, 0)]":
+            raise Untranslatable("_LiveRender.__rich_console__: slices (max_height shape)")
+        return True
+    raise Untranslatable(f"_LiveRender.__rich_console__: bound `{bound}`")
 
 
 def _show_cursor(repo):
@@ -216,4 +267,11 @@ def gen_live_codes(repo):
     out.append(f"Definition live_start_guarded : bool := {'true' if _guarded(ev['live_start']) else 'false'}.\n")
     out.append(f"Definition live_stop_visible_unless_transient : bool := "
                f"{'true' if EV['visible_unless_transient'] in ev['live_stop'] else 'false'}.\n")
+    b = lambda x: "true" if x else "false"
+    out.append("(* stop() puts the user's overflow mode back after its last refresh / forgets the shape it drew *)\n")
+    out.append(f"Definition live_stop_restores_overflow : bool := {b(_restores_overflow(ev['live_stop']))}.\n")
+    out.append(f"Definition live_stop_resets_shape : bool := {b(ev['live_stop'] and ev['live_stop'][-1] == EV['shape=None'])}.\n")
+    out.append(f"Definition progress_stop_resets_shape : bool := {b(ev['progress_stop'] and ev['progress_stop'][-1] == EV['shape=None'])}.\n")
+    out.append("(* _LiveRender crops the last frame of a transient display to one row less than the page *)\n")
+    out.append(f"Definition live_transient_final_room : bool := {b(_final_room(lr))}.\n")
     return "".join(out)
